@@ -128,6 +128,10 @@ func (s *single) settle() {
 	if c.Failed() {
 		return
 	}
+	if s.needReset {
+		c.Fail("C14.M3.backoff-not-reset", "the current instance returned nil with retry configured, but the backoff has not been reset by the time the container is quiet")
+		return
+	}
 	s.afterOp()
 	// a retried or restarted routine makes earlier failed exits stale: detect new entries
 	for _, in := range s.exits {
